@@ -331,6 +331,12 @@ pub trait Engine: Sync {
             Tier::Thorough => 3600.0,
         }
     }
+    /// a stage that runs once in the supervisor after all cases (e.g. schedules explored by
+    /// an external seeded scheduler); its result is merged like one more case.  Err = harness
+    /// error (exit 2).
+    fn post_stage(&self, _ctx: &Ctx, _index: usize) -> Result<Option<CaseResult>, String> {
+        Ok(None)
+    }
     /// restart the worker process after every case (engines whose oracle is about
     /// process-wide hidden state)
     fn fresh_worker_per_case(&self) -> bool {
@@ -667,7 +673,12 @@ pub fn run_property(engine: &dyn Engine, ctx: &Ctx) -> i32 {
         n,
         workers_wanted().min(n.max(1))
     );
-    let out = supervise(ctx, n, None);
+    let mut out = supervise(ctx, n, None);
+    match engine.post_stage(ctx, n) {
+        Ok(Some(r)) => out.results.push(r),
+        Ok(None) => {}
+        Err(e) => out.harness_errors.push(format!("post stage: {e}")),
+    }
     finish_run(engine, ctx, out, t0, true)
 }
 
